@@ -39,12 +39,13 @@ TRUSTED_COMMON = [
 ]
 
 
-def sh(cmd, cwd=None, timeout=None, inp=None, env=None):
+def sh(cmd, cwd=None, timeout=None, inp=None, env=None, drop_stderr=False):
     """Run a command; return (rc, stdout+stderr)."""
     try:
         p = subprocess.run(
             cmd, cwd=cwd, timeout=timeout, input=inp, env=env,
-            stdout=subprocess.PIPE, stderr=subprocess.STDOUT, text=True,
+            stdout=subprocess.PIPE, stderr=(subprocess.DEVNULL if drop_stderr else subprocess.STDOUT), text=True,
+            errors="replace",
             shell=isinstance(cmd, str),
         )
         return p.returncode, p.stdout
@@ -243,7 +244,7 @@ class Ctx:
         chunks = [lines[i::n] for i in range(n)]
 
         def one(chunk):
-            rc, out = sh([exe], inp="\n".join(chunk) + "\n", timeout=timeout)
+            rc, out = sh([exe], inp="\n".join(chunk) + "\n", timeout=timeout, drop_stderr=True)
             res = out.split("\n")
             if res and res[-1] == "":
                 res.pop()
